@@ -16,8 +16,8 @@ import (
 )
 
 func init() {
-	props["C01"] = func(c *Ctx) { runProcK3(c, "C01") }
-	props["C05"] = func(c *Ctx) { runProcK3(c, "C05") }
+	props["C01"] = func(c *Ctx) { runProcK3(c, "C01"); runMetaK3(c, "C01") }
+	props["C05"] = func(c *Ctx) { runProcK3(c, "C05"); runMetaK3(c, "C05") }
 	props["C02"] = func(c *Ctx) { runProcK3(c, "C02"); runC02Extra(c) }
 }
 
